@@ -13,8 +13,9 @@ EXPLANATION = (
     "value exactly when the owner is None; disconnect handling touches only entries whose owner *is* the ended connection; "
     "every housekeeping delete is guarded by a comparison of a measured period with the configured lifetime / linger (directly or "
     "through a flag), both expiries exist, the lifetime test does not depend on the linger state, all under the housekeeper lock, and every server loop drives housekeeping; the client iterator drops its proxy on exhaustion and sends close_stream only while connected. "
-    "Not decided (most of the property): item order, no loss/duplication, interleavings of next/close/reconnect/housekeeping, "
+    "Also decided: removal in the error handler cannot raise; single results pass _streamResponse; the client tests the stream flag before the accompanying exception; housekeeping deletes only after a fresh look-up; the out-of-sync close uses a copy of the stream's proxy; the stream table is per daemon. "
     "virtual time."
+    "Not decided (most of the property): item order, no loss/duplication, interleavings of next/close/reconnect/housekeeping, "
 )
 
 TBL = "streaming_responses"
@@ -313,6 +314,17 @@ def run(ctx, R, tier):
         bool(exc_raises) and all(icfg.guarded(n, lambda e: edge_has_fact(e, streamed(False))) for n in exc_raises)
     R.check(ok, "C10-R6", "_pyroInvoke|stream-flag-before-exception", "a reply flagged ITEMSTREAMRESULT yields the stream iterator; the decoded exception is raised only for unflagged replies",
             inv.loc(), "the reply's stream flag is not honoured before the accompanying exception is raised: the caller gets 'result of call is an iterator' instead of the items")
+
+    from .common import housekeeping_relookup
+    housekeeping_relookup(ctx, R, "C10-R5")
+    # client: the helper connection that tells the server to forget a stream is a copy of the stream's own proxy (same handshake data, serializer, timeout)
+    clo = ctx.fn("Pyro5.client._StreamResultIterator.close")
+    made = [c for c in walk_no_nested(clo.node) if isinstance(c, ast.Call) and ((isinstance(c.func, ast.Name) and c.func.id == "Proxy") or
+            (isinstance(c.func, ast.Attribute) and c.func.attr in ("Proxy", "__copy__")) or unparse(c.func) == "copy.copy")]
+    bare = [c for c in made if not (isinstance(c.func, ast.Attribute) and c.func.attr == "__copy__") and unparse(c.func) != "copy.copy"]
+    R.check(bool(made) and not bare, "C10-R6", "_StreamResultIterator.close|helper-is-a-copy", "the out-of-sync close uses a copy of the stream's proxy", clo.loc(made[0]) if made else clo.loc(),
+            "the helper connection is a bare Proxy(uri): it lacks the original's handshake data, so a daemon with a handshake validator rejects it, the (suppressed) close_stream never "
+            "arrives and the server keeps the closed stream")
 
     # ---------------------------------------------------------------- R7
     from .common import fresh_per_instance
